@@ -245,6 +245,7 @@ type specColumn struct {
 }
 
 type specPage struct {
+	rep, def []int32 // levels of this page
 	hdrLen   int64
 	offset   int64 // of the page header in the file
 	size     int64 // header + compressed body
@@ -409,6 +410,7 @@ func specReadChunk(file []byte, meta *specVal, maxRep, maxDef int) (col *specCol
 				return col, pages, false
 			}
 			pg.numRows = specCountRows(rep, nv, maxRep)
+			pg.rep, pg.def = rep, def
 			if maxRep > 0 && len(rep) > 0 {
 				vAssert(rep[0] == 0, "page starts on a row boundary")
 			}
@@ -459,6 +461,7 @@ func specReadChunk(file []byte, meta *specVal, maxRep, maxDef int) (col *specCol
 				return col, pages, false
 			}
 			pg.numRows = specCountRows(rep, nv, maxRep)
+			pg.rep, pg.def = rep, def
 			vAssert(pg.numRows == nr, "num_rows counts the rows that start in the page")
 			if maxRep > 0 && len(rep) > 0 {
 				vAssert(rep[0] == 0, "page starts on a row boundary")
@@ -647,6 +650,9 @@ func specCheckIndexes(file []byte, chunk *specVal, pages []specPage, col *specCo
 		ci := r.value(12, 0)
 		vAssert(!r.bad && int64(r.pos) == ln, "column index is one thrift struct of the announced length")
 		vAssert(len(ci.items(1)) == len(data) && len(ci.items(2)) == len(data) && len(ci.items(3)) == len(data), "one column index entry per data page")
+		// per-page level histograms (fields 6 and 7): pages concatenated, one bucket per level
+		specCheckPageHistograms(ci.items(6), data, leaf.maxRep, true)
+		specCheckPageHistograms(ci.items(7), data, leaf.maxDef, false)
 	}
 }
 
@@ -665,6 +671,31 @@ func specCheckHistogram(hist []*specVal, levels []int32, max int, what string) {
 			}
 		}
 		vAssert(h.i == n, what+" level histogram counts the levels of this chunk")
+	}
+}
+
+func specCheckPageHistograms(hist []*specVal, pages []specPage, max int, repetition bool) {
+	if len(hist) == 0 {
+		return
+	}
+	vAssert(len(hist) == len(pages)*(max+1), "page level histograms hold one bucket per level and page")
+	if len(hist) != len(pages)*(max+1) {
+		return
+	}
+	for p, pg := range pages {
+		levels := pg.def
+		if repetition {
+			levels = pg.rep
+		}
+		for l := 0; l <= max; l++ {
+			n := int64(0)
+			for _, x := range levels {
+				if int(x) == l {
+					n++
+				}
+			}
+			vAssert(hist[p*(max+1)+l].i == n, "a page level histogram counts the levels of its page")
+		}
 	}
 }
 
